@@ -142,6 +142,10 @@ func (ls *lifeScenario) body(x *Exec) {
 			}
 		case "fresh":
 			// connected, nothing sent yet
+		case "gone":
+			if r, e := w.call("SET", "gone"+fmt.Sprint(i), "1"); e != "" || r.S != "OK" {
+				viol("setup", "leaving client: SET answered %v %s", r, e)
+			}
 		case "pipeline":
 			// two complete commands and the first half of a third in one segment
 			req := append(append(vm.Encode("SET", "p1", "1"), vm.Encode("SET", "p2", "2")...), vm.Encode("SET", "p3", "3")[:9]...)
@@ -155,6 +159,15 @@ func (ls *lifeScenario) body(x *Exec) {
 			w.send("BLPOP", "kb", "0")
 		case "blocked-timeout":
 			w.send("BLPOP", "kb", "1000")
+		}
+	}
+	// clients that have come and gone before the termination ("gone"): they disconnect, oldest first,
+	// after everybody has connected, and the emulator notices each before the next one leaves
+	for i, st := range ls.states {
+		if st == "gone" {
+			verifrt.AwaitQuiescence()
+			clis[i].c.Close()
+			verifrt.AwaitQuiescence()
 		}
 	}
 	if ls.racing == "" || ls.racing == "connect" {
@@ -222,6 +235,9 @@ func (ls *lifeScenario) body(x *Exec) {
 	}
 	// --- (3) existing connections are closed and can neither read nor modify data
 	for i, w := range clis {
+		if ls.states[i] == "gone" {
+			continue
+		}
 		w.drain()
 		var probe []string
 		switch ls.states[i] {
@@ -314,6 +330,9 @@ func (ls *lifeScenario) body(x *Exec) {
 		// old connections must not reach the successor's data either
 		w.call("SET", "fresh", "1")
 		for i, o := range clis {
+			if ls.states[i] == "gone" {
+				continue
+			}
 			o.drain()
 			o.send("GET", "fresh")
 			verifrt.AwaitQuiescence()
@@ -360,6 +379,10 @@ func lifeScenarios(tier string) []*Scenario {
 		add(&lifeScenario{name: "close/" + st, states: []string{st}, restart: true})
 	}
 	add(&lifeScenario{name: "close/no-clients", restart: true})
+	// connections that have come and gone before the termination, in every position among those that stay
+	add(&lifeScenario{name: "churn/gone+gone+idle", states: []string{"gone", "gone", "idle"}, restart: true})
+	add(&lifeScenario{name: "churn/gone+idle+gone+blocked", states: []string{"gone", "idle", "gone", "blocked"}})
+	add(&lifeScenario{name: "churn/idle+gone", states: []string{"idle", "gone"}, restart: true})
 	add(&lifeScenario{name: "close/split-calls/idle+blocked", states: []string{"idle", "blocked"}, splitTerm: true})
 	// termination racing with a command / a connect
 	add(&lifeScenario{name: "race/command-during-close", states: []string{"idle"}, racing: "command"})
@@ -382,6 +405,10 @@ func lifeScenarios(tier string) []*Scenario {
 			add(&lifeScenario{name: "race/connect/" + a, states: []string{a}, racing: "connect", restart: true})
 			add(&lifeScenario{name: "two-instances/" + a, states: []string{a}, second: true, restart: true})
 		}
+		for _, sts := range [][]string{{"gone", "idle", "idle"}, {"idle", "gone", "gone", "idle"}, {"gone", "gone", "gone", "multi"}, {"gone", "blocked", "gone", "pipeline"}} {
+			add(&lifeScenario{name: "churn/" + strings.Join(sts, "+"), states: sts, restart: true})
+		}
+		add(&lifeScenario{name: "churn/race/gone+gone+idle", states: []string{"gone", "gone", "idle"}, racing: "command"})
 		// repeated cycles on one port
 		add(&lifeScenario{name: "cycle/idle-restart-persist", states: []string{"idle", "idle"}, persist: true, restart: true, splitTerm: true})
 	}
